@@ -7,6 +7,7 @@ import HdVerif.Generated.T16f
 import HdVerif.Generated.T16g
 import HdVerif.Generated.T16k
 import HdVerif.Generated.T16l
+import HdVerif.Generated.T16m
 import HdVerif.Generated.T15c
 /-! # C16  Measurement-report queries return exactly the matching groups
 
@@ -173,6 +174,32 @@ theorem filter_skeleton_is_the_source_skeleton :
           "', referenced_sop_class_uid=referenced_sop_class_uid, referenced_sop_instance_uid=referenced_sop_instance_uid, " ++
           "relationship_type=RelationshipTypeValues.CONTAINS)"),
        ("image", "append", "HAS_UID", "matches_uids")] := by
+  decide +kernel
+
+/-- **The accessors of a returned group search what the model's accessors search** (table of every
+`find_content_items(root_item, …)` call of the accessors of `_MeasurementsAndQualitativeEvaluations`, regenerated on every
+run, T16m; a trip-wire on a table, AGENT_GUIDE §3a).  The single-valued accessors (`method`, `tracking_identifier`,
+`tracking_uid`, `finding_category`, `finding_type`) and `finding_sites` look for the model's constant of that name with the
+value type the model's `valuesOf` filters by (`methodOf`, `trackingIdOf`, `trackingUidOf`, `findingCategoryOf`,
+`findingTypeOf`, `findingSitesOf`), without relationship type and without recursion (a laterality below a site item is no
+site); `get_measurements` / `get_qualitative_evaluations` take NUM / CODE items with relationship CONTAINS
+(`measurementsOf`, `evaluationsOf`: the items of a time point context — HAS OBS CONTEXT — are no measurements), and the
+names `get_qualitative_evaluations` excludes are exactly `reservedCodeNames`.  With `accessors_return_construction_values`
+(the model's accessors on `mkGroup p` return the construction values) this is what the accessor oracle of the
+correspondence checks on every returned group, in memory and re-read. -/
+theorem accessors_search_what_the_source_searches :
+    Gen.accessorSearches =
+      [("method", cMethod, "CODE", "", false),
+       ("tracking_identifier", cTrackingId, "TEXT", "", false),
+       ("tracking_uid", cTrackingUid, "UIDREF", "", false),
+       ("finding_category", cFindingCategory, "CODE", "", false),
+       ("finding_type", cFinding, "CODE", "", false),
+       ("finding_sites", cFindingSite, "CODE", "", false),
+       ("get_measurements", "", "NUM", "CONTAINS", false),
+       ("get_measurements", "<name>", "NUM", "CONTAINS", false),
+       ("get_qualitative_evaluations", "", "CODE", "CONTAINS", false),
+       ("get_qualitative_evaluations", "<name>", "CODE", "CONTAINS", false)] ∧
+    Gen.evaluationReservedNames = reservedCodeNames := by
   decide +kernel
 
 /-- **A query leaves nothing behind on the report object.**  The table of what the three queries and every method of the
